@@ -141,8 +141,8 @@ func c20Run(ops []c20Op, hist []int) verifx.SearchResult {
 			n := 0
 			partial := false
 			firstBefore := -1
-			if dl0 := st.store[sid(op.s)][tid(op.t)]; dl0 != nil {
-				firstBefore = dl0.first
+			if f0, _, _, ok := c20View(st, sid(op.s), tid(op.t), len(m.appended[k])); ok {
+				firstBefore = f0
 			}
 			seq := st.After(ctx, sid(op.s), tid(op.t), idx)
 			func() {
@@ -235,32 +235,43 @@ func c20Run(ops []c20Op, hist []int) verifx.SearchResult {
 		} else {
 			obs = op.kind
 		}
-		// invariants on the private state after every operation
+		// invariants on the retained state after every operation (read from the store's private fields, or -
+		// when those have been reshaped by the change under test - reconstructed through After alone)
 		total := 0
-		for sname, sm := range st.store {
-			for tname, dl := range sm {
-				var s, t int
-				fmt.Sscanf(sname, "s%d", &s)
-				fmt.Sscanf(tname, "t%d", &t)
-				app := m.appended[[2]int{s, t}]
-				if dl.first+len(dl.data) != len(app) || dl.first < 0 {
-					return bad("retained-not-suffix", "after %s: stream %s/%s retains [%d,%d) but %d items were appended", op.display, sname, tname, dl.first, dl.first+len(dl.data), len(app))
-				}
-				sz := 0
-				for i, d := range dl.data {
-					if string(d) != string(app[dl.first+i]) {
-						return bad("retained-not-suffix", "after %s: stream %s/%s item %d is %q, appended was %q", op.display, sname, tname, dl.first+i, d, app[dl.first+i])
-					}
-					sz += len(d)
-				}
-				if sz != dl.size {
-					return bad("stream-size-accounting", "after %s: stream %s/%s size=%d but holds %d bytes", op.display, sname, tname, dl.size, sz)
-				}
-				total += sz
+		var known [][2]string
+		for s := 0; s < 2; s++ {
+			for t := 0; t < 2; t++ {
+				known = append(known, [2]string{sid(s), tid(t)})
 			}
 		}
-		if total != st.nBytes {
-			return bad("total-accounting", "after %s: nBytes=%d but %d bytes are retained", op.display, st.nBytes, total)
+		for _, st2 := range c20Streams(st, known) {
+			sname, tname := st2[0], st2[1]
+			var s, t int
+			fmt.Sscanf(sname, "s%d", &s)
+			fmt.Sscanf(tname, "t%d", &t)
+			app := m.appended[[2]int{s, t}]
+			first, items, size, _ := c20View(st, sname, tname, len(app))
+			if first+len(items) != len(app) || first < 0 {
+				return bad("retained-not-suffix", "after %s: stream %s/%s retains [%d,%d) but %d items were appended", op.display, sname, tname, first, first+len(items), len(app))
+			}
+			sz := 0
+			for i, d := range items {
+				if string(d) != string(app[first+i]) {
+					return bad("retained-not-suffix", "after %s: stream %s/%s item %d is %q, appended was %q", op.display, sname, tname, first+i, d, app[first+i])
+				}
+				sz += len(d)
+			}
+			if sz != size {
+				return bad("stream-size-accounting", "after %s: stream %s/%s size=%d but holds %d bytes", op.display, sname, tname, size, sz)
+			}
+			total += sz
+		}
+		accounted, storeMax := c20Totals(st)
+		if accounted >= 0 && total != accounted {
+			return bad("total-accounting", "after %s: nBytes=%d but %d bytes are retained", op.display, accounted, total)
+		}
+		if storeMax != m.max {
+			return bad("limit-not-set", "after %s: the store's limit is %d, the last SetMaxBytes said %d", op.display, storeMax, m.max)
 		}
 		if total > m.max+m.lastSize {
 			return bad("over-limit", "after %s: %d bytes retained, limit %d + most recent item %d", op.display, total, m.max, m.lastSize)
@@ -269,28 +280,29 @@ func c20Run(ops []c20Op, hist []int) verifx.SearchResult {
 			return bad("over-limit-after-setmax", "after %s: %d bytes retained", op.display, total)
 		}
 		if op.kind == "closed" {
-			if _, ok := st.store[sid(op.s)]; ok {
+			if c20HasSession(st, sid(op.s), []string{tid(0), tid(1)}) {
 				return bad("closed-not-released", "after %s the session's data is still in the store", op.display)
 			}
 		}
 		for kk := range m.open {
-			if st.store[sid(kk[0])][tid(kk[1])] == nil {
+			if _, _, _, ok := c20View(st, sid(kk[0]), tid(kk[1]), len(m.appended[kk])); !ok {
 				return bad("open-stream-missing", "after %s: open stream s%d/t%d is missing", op.display, kk[0], kk[1])
 			}
 		}
 	}
 	// canonical key of the final state
 	var b strings.Builder
-	fmt.Fprintf(&b, "max=%d last=%d|", st.maxBytes, m.lastSize)
+	_, storeMax := c20Totals(st)
+	fmt.Fprintf(&b, "max=%d last=%d|", storeMax, m.lastSize)
 	for s := 0; s < 2; s++ {
 		for t := 0; t < 2; t++ {
-			dl := st.store[sid(s)][tid(t)]
-			if dl == nil {
+			first, items, _, ok := c20View(st, sid(s), tid(t), len(m.appended[[2]int{s, t}]))
+			if !ok {
 				b.WriteString("-|")
 				continue
 			}
-			fmt.Fprintf(&b, "%d:", dl.first)
-			for _, d := range dl.data {
+			fmt.Fprintf(&b, "%d:", first)
+			for _, d := range items {
 				fmt.Fprintf(&b, "%d,", len(d))
 			}
 			b.WriteString("|")
